@@ -49,7 +49,7 @@ type C19Case struct {
 	Mapping    *gen.Mapping      `json:"mapping,omitempty"`
 	Remap      string            `json:"remap,omitempty"`
 	Procs      int               `json:"procs"`
-	Pipeline   string            `json:"pipeline"` // balance | weights | returns | check
+	Pipeline   string            `json:"pipeline"`       // balance | weights | returns | check
 	Argv       []string          `json:"argv,omitempty"` // CLI variant
 }
 
